@@ -457,7 +457,7 @@ class _LoggedFn:
 
 
 class VerusUnit:
-    def __init__(self, name, module, tier="quick", rlimit=30, carries=None, paired_kani=None, kind="unbounded"):
+    def __init__(self, name, module, tier="quick", rlimit=30, carries=None, paired_kani=None, kind="unbounded", clauses=None):
         self.name = name
         self.module = module        # contracts/verus/<module>.py
         self.tier = tier
@@ -465,6 +465,7 @@ class VerusUnit:
         self.backend = "verus"
         self.paired_kani = paired_kani
         self.kind = kind
+        self.clauses = clauses      # regex: only failing clauses whose text matches belong to the property that registers the unit this way
 
 
 VERIF_ERRS = [
